@@ -45,15 +45,7 @@ def sentinel : DType → String
   | .string => "x7e"
   | _ => "7"
 
-/-- column index of a reference according to the creation schema -/
-def resolveRef (cols : List Col) : Ref → Option Nat
-  | .idx i => if i < cols.length then some i else none
-  | .name n => let i := cols.findIdx (fun c => c.name == n); if i < cols.length then some i else none
-
-/-- … of a Cell: a Cell whose name is empty is addressed by its index (0 when made from a name) -/
-def resolveCellRef (cols : List Col) : Ref → Option Nat
-  | .name n => if n.isEmpty then resolveRef cols (.idx 0) else resolveRef cols (.name n)
-  | r => resolveRef cols r
+open Nix.C15 (resolveRef resolveCellRef)
 
 def okOr {α} (r : Except Err α) (f : α → List String) : List String :=
   match r with
@@ -76,7 +68,7 @@ def cellWriteRules (h : List Ev) (row : Nat) (cells : List (Ref × Variant Strin
   then [("well_formed_write_is_accepted", implOk impl)] else []
 
 def resolvedCells (h : List Ev) (cells : List (Ref × Variant String)) : List (Nat × Variant String) :=
-  cells.filterMap fun c => (resolveCellRef (C15.schemaOf h) c.1).map fun i => (i, c.2)
+  C15.resolvedCells (C15.schemaOf h) cells
 
 def handle (st : DState) (op : String) (args impl : List String) : Option (DState × Out) :=
   let fr := st.dp.fr
